@@ -109,3 +109,6 @@ try:
     json.dump(meta, open(old, "w"), indent=1)
 finally:
     shutil.rmtree(tmp, ignore_errors=True)
+    # the check above regenerated lean/Reamber/Generated/* from the scratch copy: put the tables of /repo back
+    subprocess.run(["/venv/bin/python", os.path.join(VERIF, "harness", "extract_tables.py")], env=dict(os.environ, REAMBER_REPO="/repo"),
+                   stdout=subprocess.DEVNULL, stderr=subprocess.DEVNULL)
